@@ -9,6 +9,8 @@ OUTS = {
     "nul": "<<%s>> a\x00b\x00c\n",
     "ansi": "<<%s>> \x1b[31mred\x1b[0m plain\n",
     "esc": "<<%s>> bare \x1b escape\n",
+    # control sequences whose final byte is not a letter (ECMA-48: any of 0x40-0x7E ends a CSI): function key, insert character
+    "csi": "<<%s>> before\x1b[2~ 12345 + 6789 = 19134\n<<%s>> error: real text\x1b[1@X yz\n",
     "multi": "<<%s>> l1\n<<%s>> l2\n",
     "none": None,
 }
@@ -49,7 +51,7 @@ def templates(tier="quick"):
         T.append(scenario("c20/%s/fresh" % name, "c20", vs, files=files, ops=ops, init=[], depth=1, tags=["output", "fresh"] + list(tags)))
         T.append(scenario("c20/%s/built" % name, "c20", vs, files=files, ops=ops, init=[nb], depth=d, tags=["output", "built"] + list(tags)))
 
-    kinds = ["line", "nonl", "big", "nul", "ansi", "esc", "multi", "none"]
+    kinds = ["line", "nonl", "big", "nul", "ansi", "esc", "multi", "none", "csi"]
     # parallel statements with every kind of output
     st = [Stmt("p%d" % i, ex=["s"] if i % 2 else ["t"], prints=P(k, "p%d" % i), desc="DESC p%d" % i if i % 3 == 0 else None)
           for i, k in enumerate(kinds[:4])]
@@ -57,7 +59,7 @@ def templates(tier="quick"):
     add("parallel_a", Variant("v0", st), faults=[{"p1": {"code": 3}}, {"p0": {"code": 1}, "p2": {"code": 2, "touch": True}}])
     st = [Stmt("q%d" % i, ex=["s"] if i % 2 else ["t"], prints=P(k, "q%d" % i)) for i, k in enumerate(kinds[4:])]
     st.append(Stmt("link", ex=[s.id for s in st], prints=P("nonl", "link")))
-    add("parallel_b", Variant("v0", st), faults=[{"q0": {"code": 9}}])
+    add("parallel_b", Variant("v0", st), faults=[{"q0": {"code": 9}}, {"q4": {"code": 4}}])
     # restat pruning: totals shrink
     st = [Stmt("r", ex=["s"], restat=True, prints=P("line", "r")), Stmt("a", ex=["r"], prints=P("line", "a")),
           Stmt("b", ex=["a"], prints=P("multi", "b")), Stmt("x", ex=["t"], prints=P("line", "x"))]
